@@ -121,7 +121,6 @@ func machine(input OmegaInput) (output OmegaOutput) {
 	po, pz, i := input.VM.Registers[7], input.VM.Registers[8], input.VM.Registers[9]
 	// pz = offset
 	if !isReadable(po, pz, *input.VM.Memory) { // not readable, return
-		input.VM.Registers[7] = OOB
 		return OmegaOutput{
 			ExitReason: ExitPanic,
 			Addition:   input.Addition,
@@ -175,7 +174,6 @@ func peek(input OmegaInput) (output OmegaOutput) {
 
 	// z = offset (an empty range is always writable / readable; the machine must still exist)
 	if !isWriteable(o, z, *input.VM.Memory) { // not writeable, return
-		input.VM.Registers[7] = OOB
 		return OmegaOutput{
 			ExitReason: ExitPanic,
 			Addition:   input.Addition,
@@ -223,7 +221,6 @@ func poke(input OmegaInput) (output OmegaOutput) {
 	n, s, o, z := input.VM.Registers[7], input.VM.Registers[8], input.VM.Registers[9], input.VM.Registers[10]
 
 	if !isReadable(s, z, *input.VM.Memory) { // not readable, return
-		input.VM.Registers[7] = OOB
 		return OmegaOutput{
 			ExitReason: ExitPanic,
 			Addition:   input.Addition,
@@ -338,7 +335,6 @@ func invoke(input OmegaInput) (output OmegaOutput) {
 	offset := uint64(112)
 	// g = panic
 	if !isWriteable(o, offset, *input.VM.Memory) {
-		input.VM.Registers[7] = OOB
 		return OmegaOutput{
 			ExitReason: ExitPanic,
 			Addition:   input.Addition,
